@@ -17,6 +17,7 @@ Everything is by induction over the history / the value list; nothing is sampled
 -/
 import MetricsVerif.Proofs.Statsd
 import MetricsVerif.Proofs.StatsdRead
+import MetricsVerif.Generated.SourceFacts
 
 namespace MetricsVerif.C09
 open MetricsVerif.Statsd
@@ -314,6 +315,173 @@ theorem payload_parses_hist (max : Nat) (c : Call) (vs : List Bytes) (hc : Delim
   | nil => exact absurd rfl (hne [] hch)
   | cons x xs => exact StatsdRead.render_parses c.fullName c.ty c.labels c.globals none c.rate x xs hn hty hvals htags rfl hrate
 
+/-! ## configuration: the writer a built exporter runs with (builder validation, framing mode, defaults) -/
+
+/-- `PayloadWriter::new` panics exactly for limits that do not fit a `u32` -/
+theorem new_panics_iff (max : Nat) (lp : Bool) (fx : Fixes) : new max lp fx = none ↔ 4294967296 ≤ max := by
+  unfold new
+  by_cases h : max < 4294967296
+  · simp [h]
+  · simp [h]; omega
+
+set_option linter.unusedSimpArgs false in
+/-- **validate_iff.**  The builder accepts a limit iff it fits a `u32` and, for UDP, one datagram
+    (`65535 - 8` bytes); nothing else is rejected. -/
+theorem validate_iff (t : Transport) (configured : Option Nat) :
+    validateMaxPayloadLen t configured = true ↔
+      getMaxPayloadLen t configured ≤ 4294967295 ∧ (t = Transport.udp → getMaxPayloadLen t configured ≤ 65527) := by
+  unfold validateMaxPayloadLen udpDatagramMaxPayloadLen u32Max
+  by_cases ht : t = Transport.udp <;> by_cases h1 : 65535 - 8 < getMaxPayloadLen t configured <;>
+    by_cases h2 : 4294967295 < getMaxPayloadLen t configured <;> simp [ht, h1, h2] <;> omega
+
+/-- the transport defaults (1432 for UDP, 8192 for both unix socket kinds) pass validation -/
+theorem defaults_valid (t : Transport) : validateMaxPayloadLen t none = true := by
+  cases t <;> decide
+
+/-- **lp_iff_unix_stream.**  Payloads are length-prefixed exactly on the stream transport (`unix://`); the two
+    datagram transports carry bare payloads. -/
+theorem lp_iff_unix_stream (t : Transport) : isLengthPrefixed t = true ↔ t = Transport.unix := by
+  cases t <;> simp [isLengthPrefixed]
+
+/-- **build_no_panic.**  For EVERY transport and every configured limit (`None` or any number, also ≥ 2³²) the
+    builder either refuses (`BuildError`, no exporter, nothing panics) or the forwarder's `PayloadWriter::new`
+    succeeds with exactly the configured-or-default limit and the transport's framing mode, and from then on no
+    history of writes and drains panics.  This discharges the hypothesis `max < 2³²` of `no_panic` for built
+    exporters. -/
+theorem build_no_panic (t : Transport) (configured : Option Nat) :
+    buildWriter t configured Fixes.all = none
+    ∨ ∃ w0, buildWriter t configured Fixes.all = some (some w0)
+        ∧ new (getMaxPayloadLen t configured) (isLengthPrefixed t) Fixes.all = some w0
+        ∧ w0.max = getMaxPayloadLen t configured ∧ w0.lp = isLengthPrefixed t
+        ∧ getMaxPayloadLen t configured < 4294967296
+        ∧ ∀ ops : List Op, (run w0 ops).isSome = true := by
+  by_cases hv : validateMaxPayloadLen t configured = true
+  · right
+    have hm : getMaxPayloadLen t configured < 4294967296 := by
+      have := ((validate_iff t configured).mp hv).1; omega
+    have hnew : new (getMaxPayloadLen t configured) (isLengthPrefixed t) Fixes.all
+        = some (prepareForWrite ⟨getMaxPayloadLen t configured, isLengthPrefixed t, [], [], Fixes.all⟩) := by
+      simp [new, hm]
+    refine ⟨_, by simp [buildWriter, hv, hnew], hnew, rfl, rfl, hm, ?_⟩
+    intro ops
+    obtain ⟨w', hr, _⟩ := run_refines ops _ [] (new_inv hnew)
+    rw [hr]; rfl
+  · left
+    simp [buildWriter, hv]
+
+/-- **built_udp_fits_datagram.**  Whatever a UDP exporter that could be built drains, after any history, is a
+    bare payload (no length prefix) of at most 65527 bytes, i.e. it fits one UDP datagram. -/
+theorem built_udp_fits_datagram (configured : Option Nat) (w0 : Writer)
+    (hb : buildWriter Transport.udp configured Fixes.all = some (some w0)) (ops : List Op) (w : Writer)
+    (outs : List Out) (hr : run w0 ops = some (w, outs)) (slices : List Bytes) (hd : Out.drained slices ∈ outs) :
+    ∀ s ∈ slices, s.length ≤ 65527 := by
+  rcases build_no_panic Transport.udp configured with hnone | ⟨w1, hb1, hnew, _, _, _, _⟩
+  · rw [hnone] at hb; cases hb
+  · rw [hb1] at hb
+    have hw : w1 = w0 := by injection hb with h; injection h
+    subst hw
+    have hval : validateMaxPayloadLen Transport.udp configured = true := by
+      by_cases hv : validateMaxPayloadLen Transport.udp configured = true
+      · exact hv
+      · simp [buildWriter, hv] at hb1
+    have hlim := ((validate_iff Transport.udp configured).mp hval).2 rfl
+    obtain ⟨bodies, hs, hbd⟩ := framed hnew ops w outs hr slices hd
+    intro s hsl
+    rw [hs] at hsl
+    simp only [isLengthPrefixed, List.mem_map] at hsl
+    obtain ⟨b, hbm, rfl⟩ := hsl
+    have := hbd b hbm
+    simp
+    omega
+
+/-- `isPrefixOf` is `str::starts_with` -/
+theorem isPrefixOf_iff : ∀ (p s : Bytes), isPrefixOf p s = true ↔ ∃ r, s = p ++ r := by
+  intro p
+  induction p with
+  | nil => intro s; simp [isPrefixOf]
+  | cons a as ih =>
+    intro s
+    cases s with
+    | nil => simp [isPrefixOf]
+    | cons b bs =>
+      simp only [isPrefixOf, Bool.and_eq_true, beq_iff_eq, ih, List.cons_append, List.cons.injEq]
+      constructor
+      · rintro ⟨rfl, r, rfl⟩; exact ⟨r, rfl, rfl⟩
+      · rintro ⟨r, rfl, rfl⟩; exact ⟨rfl, r, rfl⟩
+
+/-- **flush_prefix.**  `State::flush` passes the global prefix for every metric except those whose name starts
+    with `datadog.dogstatsd.client` (the exporter's own telemetry), which are never prefixed — starts with, not
+    contains, and not merely `datadog.`. -/
+theorem flush_prefix (g : Option Bytes) (name : Bytes) :
+    ((∃ r, name = clientNamespace ++ r) → flushPrefix g name = none)
+    ∧ ((¬ ∃ r, name = clientNamespace ++ r) → flushPrefix g name = g) := by
+  unfold flushPrefix
+  constructor
+  · intro h; rw [if_pos ((isPrefixOf_iff _ _).mpr h)]
+  · intro h
+    have : ¬ isPrefixOf clientNamespace name = true := fun hp => h ((isPrefixOf_iff _ _).mp hp)
+    rw [if_neg this]
+
+/-! ## source facts (tools/extract.py, regenerated from the repository on every run) -/
+
+set_option maxRecDepth 100000 in
+/-- **src_config.**  The configuration plumbing of the current source is the one modelled: transport defaults,
+    which transport is length-prefixed, the two validation tests and their order, `build()` validating first and
+    handing the validated limit and every builder field to the state / forwarder configuration unchanged,
+    `Forwarder::run` creating its writer from `(max_payload_len, is_length_prefixed())`, the stream arm sending
+    with `write_all` (a short `write` would tear a frame), the datagram arms with one `send` per payload. -/
+theorem src_config :
+    Generated.dsd_default_max_arms = [("Udp", "1432"), ("Unix|Unixgram", "8192")]
+    ∧ defaultMaxPayloadLen Transport.udp = 1432 ∧ defaultMaxPayloadLen Transport.unix = 8192
+    ∧ defaultMaxPayloadLen Transport.unixgram = 8192
+    ∧ Generated.dsd_length_prefixed_arms = [("Udp", "false"), ("Unix", "true"), ("Unixgram", "false")]
+    ∧ Generated.dsd_udp_datagram_max = "(u16::MAX as usize) - 8"
+    ∧ Generated.dsd_validate_guards = ["RemoteAddr::Udp(_) = &self.remote_addr"]
+    ∧ Generated.dsd_validate_tests = ["max_payload_len > UDP_DATAGRAM_MAX_PAYLOAD_LEN", "max_payload_len > u32::MAX as usize"]
+    ∧ Generated.dsd_validate_results = ["Err", "Err", "Ok"]
+    ∧ Generated.dsd_get_max = "{ self.max_payload_len.unwrap_or_else(|| self.remote_addr.default_max_payload_len()) }"
+    ∧ Generated.dsd_build_first_stmt = "self.validate_max_payload_len()?;"
+    ∧ Generated.dsd_build_max_let = "let max_payload_len = self.get_max_payload_len();"
+    ∧ Generated.dsd_build_forwarder_cfg = [("remote_addr", "self.remote_addr"), ("max_payload_len", "max_payload_len"),
+        ("flush_interval", "flush_interval"), ("write_timeout", "self.write_timeout")]
+    ∧ Generated.dsd_build_state_cfg = [("agg_mode", "self.agg_mode"), ("telemetry", "self.telemetry"),
+        ("histogram_sampling", "self.histogram_sampling"), ("histogram_reservoir_size", "self.histogram_reservoir_size"),
+        ("histograms_as_distributions", "self.histograms_as_distributions"), ("global_labels", "self.global_labels"),
+        ("global_prefix", "self.global_prefix")]
+    ∧ Generated.dsd_run_writer_new = "PayloadWriter::new(self.config.max_payload_len, self.config.is_length_prefixed())"
+    ∧ Generated.dsd_run_flush_call = "self.state.flush(&mut flush_state, &mut writer, &mut telemetry_update);"
+    ∧ Generated.dsd_unix_send = "socket.write_all(buf)"
+    ∧ Generated.dsd_dgram_sends = ["socket.send(buf)", "socket.send(buf)"] := by
+  decide
+
+set_option maxRecDepth 100000 in
+/-- **src_writer_shape.**  The statements of the writer that make a call's output independent of the writer's
+    history are the modelled ones: the writer has no state besides the limit, the buffer, the offsets, the framing
+    flag and the scratch trailer buffer; the scratch buffer is cleared and re-rendered UNCONDITIONALLY from this
+    call's key, sample rate and global labels at the start of every histogram call; dropping `Payloads` clears the
+    buffer, re-adds the placeholder and does nothing else; the minimum length uses the prefix's BYTE length; the
+    length header is the full `u32` of the body length; the limit test is on the body length; `new` asserts the
+    `u32` bound.  (`State::flush`: the three prefix exemptions are `starts_with("datadog.dogstatsd.client")`, the
+    histogram type follows `histograms_as_distributions`, sampled flushes pass `Some(values.sample_rate())`, and
+    the reported point count is scaled by dividing by the sample rate.) -/
+theorem src_writer_shape :
+    Generated.dsd_writer_fields = ["max_payload_len", "buf", "trailer_buf", "offsets", "with_length_prefix"]
+    ∧ Generated.dsd_hist_trailer_prologue
+        = "self.trailer_buf.clear(); write_metric_trailer( key, None, &mut self.trailer_buf, maybe_sample_rate, global_labels.iter(), );"
+    ∧ Generated.dsd_payloads_drop_body
+        = "{ self.buf.clear(); if self.with_length_prefix { self.buf.extend_from_slice(&[0, 0, 0, 0]); } }"
+    ∧ Generated.dsd_hist_prefix_len = "prefix.map_or(0, |prefix| prefix.len() + 1)"
+    ∧ Generated.dsd_hist_min_len = "prefix_len + key.name().len() + self.trailer_buf.len() + 2"
+    ∧ Generated.dsd_commit_len_conv = "u32::try_from(current_len).unwrap().to_le_bytes()"
+    ∧ Generated.dsd_commit_test = "current_len > self.max_payload_len"
+    ∧ Generated.dsd_new_assert = "u32::try_from(max_payload_len).is_ok()"
+    ∧ Generated.dsd_prefix_exemptions = ["key.name().starts_with(\"datadog.dogstatsd.client\")",
+        "key.name().starts_with(\"datadog.dogstatsd.client\")", "key.name().starts_with(\"datadog.dogstatsd.client\")"]
+    ∧ Generated.dsd_hist_as_dist_test = "self.config.histograms_as_distributions"
+    ∧ Generated.dsd_hist_flush_calls = ["None, Values::Raw(values.iter())", "Some(values.sample_rate()), Values::Sampled(values)"]
+    ∧ Generated.dsd_hist_points_flushed = "((points_len as u64 - result.points_dropped()) as f64 / sample_rate) as u64" := by
+  decide
+
 /-! ## the three defects of the unrepaired code, as theorems about the model with one repair switched off -/
 
 /-- `run` from a fresh writer, outputs only -/
@@ -388,5 +556,24 @@ example : outputs 52 true Fixes.all
     = some [.wrote 0 1, .wrote 2 1,
         .drained ((histPayloads 52 exCall exVals).map (frame true)),
         .wrote 1 0, .drained [[13, 0, 0, 0, 103, 58, 45, 48, 46, 48, 124, 103, 124, 84, 49, 55, 10]]] := by decide
+
+/-- configuration: UDP refuses 65528, accepts 65527; every transport refuses 2³²; a unix stream exporter with the
+    default limit runs a length-prefixed writer of 8192; `new` itself would panic at 2³² -/
+example : buildWriter Transport.udp (some 65528) Fixes.all = none := by decide
+example : (buildWriter Transport.udp (some 65527) Fixes.all).map (·.map (fun w => (w.max, w.lp))) = some (some (65527, false)) := by decide
+example : buildWriter Transport.unix (some 4294967296) Fixes.all = none := by decide
+example : (buildWriter Transport.unix none Fixes.all).map (·.map (fun w => (w.max, w.lp, w.buf))) = some (some (8192, true, [0, 0, 0, 0])) := by decide
+example : (buildWriter Transport.unixgram (some 4294967295) Fixes.all).map (·.map (fun w => (w.max, w.lp))) = some (some (4294967295, false)) := by decide
+example : new 4294967296 true Fixes.all = none := by decide
+/-- `datadog.dogstatsd.client.x` is exempt, `xdatadog.dogstatsd.client` and `datadog.other` are not -/
+example : flushPrefix (some [112]) (clientNamespace ++ [46, 120]) = none := by decide
+example : flushPrefix (some [112]) (120 :: clientNamespace) = some [112] := by decide
+example : flushPrefix (some [112]) [100, 97, 116, 97, 100, 111, 103, 46, 111] = some [112] := by decide
+/-- the same key written twice with different sample rates and global labels (the trailer is per call) -/
+example : outputs 64 true Fixes.all
+    [.hist ⟨104, [108], [], none, some [49, 46, 48], none, []⟩ [[49, 46, 48]], .drain,
+     .hist ⟨104, [108], [], none, some [48, 46, 53], none, [([103], [])]⟩ [[50, 46, 48]], .drain]
+    = some [.wrote 1 0, .drained [[13, 0, 0, 0, 108, 58, 49, 46, 48, 124, 104, 124, 64, 49, 46, 48, 10]],
+            .wrote 1 0, .drained [[16, 0, 0, 0, 108, 58, 50, 46, 48, 124, 104, 124, 64, 48, 46, 53, 124, 35, 103, 10]]] := by decide
 
 end MetricsVerif.C09
